@@ -28,6 +28,9 @@ type c09Case struct {
 	// one array (the first with spare capacity reaching into the second); 2 = one buffer per setting, first passed with
 	// other (valid) content, then overwritten with the real content and passed again
 	Alias int `json:"alias,omitempty"`
+	// Prev: "<separators>|<quote symbols>" the same tokenizer object was configured with (and used) before it got the
+	// configuration above; all of them are ordinary field text now
+	Prev string `json:"prev,omitempty"`
 }
 
 // c09Configure applies the configuration calls; "badseps" / "badquotes" are calls the tokenizer must reject
@@ -40,6 +43,11 @@ func c09Configure(t *csv.CsvTokenizer, c c09Case) {
 	rejected := func(f func()) {
 		defer func() { recover() }()
 		f()
+	}
+	if parts := strings.SplitN(c.Prev, "|", 2); len(parts) == 2 && parts[0] != "" && parts[1] != "" {
+		t.SetFieldSeparators([]rune(parts[0]))
+		t.SetQuoteSymbols([]rune(parts[1]))
+		t.TokenizeBuffer("a" + parts[0] + "b" + parts[1] + "c" + parts[1] + "\n" + parts[0])
 	}
 	seps, quotes := c.Seps, c.Quotes
 	if c.Alias == 1 {
@@ -268,9 +276,14 @@ func c09Run(rec *evid.Recorder, c c09Case) bool {
 var c09Pools sync.Map // configuration key -> *sync.Pool of configured tokenizers
 
 func c09RunPooled(rec *evid.Recorder, c c09Case) {
-	key := string(c.Seps) + "|" + string(c.Quotes)
+	key := string(c.Seps) + "|" + string(c.Quotes) + "|" + c.Prev
 	pv, _ := c09Pools.LoadOrStore(key, &sync.Pool{New: func() interface{} {
 		t := csv.NewCsvTokenizer()
+		if parts := strings.SplitN(c.Prev, "|", 2); len(parts) == 2 && parts[0] != "" && parts[1] != "" {
+			t.SetFieldSeparators([]rune(parts[0]))
+			t.SetQuoteSymbols([]rune(parts[1]))
+			t.TokenizeBuffer("a" + parts[0] + "b" + parts[1] + "c" + parts[1] + "\n" + parts[0])
+		}
 		t.SetFieldSeparators(c.Seps)
 		t.SetQuoteSymbols(c.Quotes)
 		return t
@@ -356,7 +369,8 @@ func TestC09_ExhaustiveEveryCharacter(t *testing.T) {
 	rec.DupFree = true
 	defer finish(t, rec)
 	rec.Bounds = "every character U+0001..U+FFFE (surrogates excluded) as the fields <c>, a<c>b in a 2x2 table x {default configuration, separators ; TAB with quotes ' «} x {raw when possible, always quoted} x line endings LF / CRLF"
-	configs := []c09Case{{Seps: []rune{','}, Quotes: []rune{'"'}}, {Seps: []rune{';', '\t'}, Quotes: []rune{'\'', '«'}}}
+	configs := []c09Case{{Seps: []rune{','}, Quotes: []rune{'"'}}, {Seps: []rune{';', '\t'}, Quotes: []rune{'\'', '«'}},
+		{Seps: []rune{','}, Quotes: []rune{'"'}, Prev: "；‖~¦|＂‹´"}}
 	parallelFor(0xfffe, func(i int) {
 		r := rune(i + 1)
 		if r >= 0xd800 && r <= 0xdfff {
@@ -365,7 +379,7 @@ func TestC09_ExhaustiveEveryCharacter(t *testing.T) {
 		table := [][]string{{string(r), "a" + string(r) + "b"}, {"z", string(r) + string(r)}}
 		for ci, cfg := range configs {
 			for always := 0; always < 2; always++ {
-				c := c09Case{Seps: cfg.Seps, Quotes: cfg.Quotes, Eol: []string{"\n", "\r\n"}[(ci+always)%2], Table: table}
+				c := c09Case{Seps: cfg.Seps, Quotes: cfg.Quotes, Prev: cfg.Prev, Eol: []string{"\n", "\r\n"}[(ci+always)%2], Table: table}
 				if always == 1 {
 					c.QuoteIt = [][]int{{1, 2}, {2, 1}}
 				}
@@ -405,6 +419,13 @@ func TestC09_Rapid(t *testing.T) {
 		if rapid.IntRange(0, 3).Draw(rt, "aliased") == 0 {
 			c.Alias = rapid.IntRange(1, 2).Draw(rt, "alias")
 		}
+		former := []rune{'中'}
+		if rapid.IntRange(0, 3).Draw(rt, "reconfigured") == 0 {
+			ps := rapid.SliceOfNDistinct(rapid.SampledFrom([]rune{'；', '│', '、', '¦', '~', '‖' + 1}), 1, 3, func(r rune) rune { return r }).Draw(rt, "prevseps")
+			pq := rapid.SliceOfNDistinct(rapid.SampledFrom([]rune{'＂', '‹', '‘', '´'}), 1, 2, func(r rune) rune { return r }).Draw(rt, "prevquotes")
+			c.Prev = string(ps) + "|" + string(pq)
+			former = append(append([]rune{}, ps...), pq...)
+		}
 		rowsN := rapid.IntRange(1, 6).Draw(rt, "rows")
 		if rapid.IntRange(0, 19).Draw(rt, "bigtable") == 0 {
 			rowsN = rapid.IntRange(6, 60).Draw(rt, "manyrows")
@@ -437,6 +458,8 @@ func TestC09_Rapid(t *testing.T) {
 						sb.WriteRune(rapid.SampledFrom([]rune{'中', '文', 'é', 'Ω', 0xfffe, 0x100, 0xff, 1, 0x7f, '"', '\'', ',', ' '}).Draw(rt, "fnamed"))
 					case 5:
 						sb.WriteRune(rapid.SampledFrom(unicodeSpecials).Draw(rt, "fspecial"))
+					case 7:
+						sb.WriteRune(rapid.SampledFrom(former).Draw(rt, "fformer"))
 					default:
 						sb.WriteRune(rune(rapid.SampledFrom([]rune("abcxyz019 .-")).Draw(rt, "fplain")))
 					}
